@@ -283,43 +283,73 @@ func (s *src) Int63() int64 {
 func (s *src) Seed(int64) {}
 
 func genStrgen(t *rapid.T) strgenCase {
-	size := rapid.SampledFrom([]int{1, 2, 3, 4, 5, 7, 8, 9, 15, 16, 17, 31, 32, 33, 63, 64, 65, 70}).Draw(t, "size")
+	size := rapid.SampledFrom([]int{1, 2, 3, 4, 5, 7, 8, 9, 15, 16, 17, 31, 32, 33, 63, 64, 65, 70, 1, 2, 3, 4, 5, 7, 8, 9, 15, 16, 17, 31, 32, 33, 63, 64, 65, 70,
+		85, 86, 94, 127, 128, 129, 255, 256, 257, 300, 1000, 4096, 65535, 65536, 65537, 70000}).Draw(t, "size")
 	seen := map[rune]bool{}
 	var rs []rune
-	wide := rapid.Bool().Draw(t, "wide")
+	// width of the members: 0 ASCII (as far as it goes), 1 two-byte, 2 three-byte, 3 four-byte, 4 and 5 drawn runes of any width
+	mode := rapid.IntRange(0, 5).Draw(t, "width")
+	bases := []rune{33, 0xa1, 0x4e00, 0x1f300}
+	if size > 300 {
+		// large sets are laid out without drawing every member: a run of consecutive code points from a drawn start
+		start := bases[mode%4] + rune(rapid.IntRange(0, 50).Draw(t, "start"))
+		for r := start; len(rs) < size; r++ {
+			if r >= 0xd800 && r <= 0xdfff || r == utf8.RuneError {
+				continue
+			}
+			rs = append(rs, r)
+		}
+	}
 	for len(rs) < size {
 		var r rune
-		if wide {
+		switch {
+		case mode >= 4:
 			r = g.Rune().Draw(t, "r")
-		} else {
+		case mode == 0:
 			r = rune(rapid.IntRange(33, 126).Draw(t, "a"))
+		default:
+			r = bases[mode] + rune(rapid.IntRange(0, 2*size+20).Draw(t, "o"))
 		}
-		if r == utf8.RuneError || seen[r] {
+		if r == utf8.RuneError || seen[r] || (r >= 0xd800 && r <= 0xdfff) {
 			r = rune(0x4e00 + len(rs)) // keep the set duplicate free by construction
+			if mode == 0 && size > 94 {
+				r = rune(0xa1 + len(rs))
+			}
 			if seen[r] {
-				continue
+				r = rune(0x20000 + len(rs))
 			}
 		}
 		seen[r] = true
 		rs = append(rs, r)
 	}
-	n := rapid.OneOf(rapid.IntRange(0, 40), rapid.IntRange(0, 200)).Draw(t, "n")
+	n := rapid.OneOf(rapid.IntRange(0, 40), rapid.IntRange(0, 200), rapid.SampledFrom([]int{255, 256, 257, 1000, 5000})).Draw(t, "n")
 	pre := rapid.SliceOfN(rapid.SampledFrom([]int64{0, 1<<63 - 1, 1 << 62, 0x5555555555555555, 0x2aaaaaaaaaaaaaaa}), 0, 3).Draw(t, "prefix")
 	return strgenCase{Charset: string(rs), N: n, Seed: rapid.Int64().Draw(t, "seed"), Prefix: pre}
 }
 
 func runStrgen(c strgenCase, r *pb.Rec) error {
+	if c.N < 0 || c.N > 100000 || len(c.Charset) == 0 || len(c.Charset) > 1<<20 {
+		return nil
+	}
+	members := map[rune]bool{}
+	for _, ch := range c.Charset {
+		members[ch] = true
+	}
+	show := c.Charset
+	if len(show) > 120 {
+		show = fmt.Sprintf("%s... (%d runes, %d bytes)", show[:strings.LastIndexFunc(show[:120], func(rune) bool { return true })], utf8.RuneCountInString(c.Charset), len(c.Charset))
+	}
 	gen := randz.NewStrGenerator(c.Charset, &src{prefix: append([]int64(nil), c.Prefix...), r: rand.NewSource(c.Seed)})
 	out := gen.Generate(c.N)
 	if !utf8.ValidString(out) {
 		return fmt.Errorf("output not valid UTF-8: %q", out)
 	}
 	if n := utf8.RuneCountInString(out); n != c.N {
-		return fmt.Errorf("Generate(%d) returned %d runes: %q", c.N, n, out)
+		return fmt.Errorf("Generate(%d) with charset %q returned %d runes: %.200q", c.N, show, n, out)
 	}
 	for _, ch := range out {
-		if !strings.ContainsRune(c.Charset, ch) {
-			return fmt.Errorf("rune %q not in charset %q", ch, c.Charset)
+		if !members[ch] {
+			return fmt.Errorf("Generate(%d): rune %q is not in the charset %q", c.N, ch, show)
 		}
 	}
 	// the same generator again with another length
@@ -333,8 +363,8 @@ func runStrgen(c strgenCase, r *pb.Rec) error {
 		return fmt.Errorf("second Generate(%d) on the same generator returned %d runes: %q", n2, k, out2)
 	}
 	for _, ch := range out2 {
-		if !strings.ContainsRune(c.Charset, ch) {
-			return fmt.Errorf("second Generate: rune %q not in charset %q", ch, c.Charset)
+		if !members[ch] {
+			return fmt.Errorf("second Generate: rune %q not in charset %q", ch, show)
 		}
 	}
 	sz := utf8.RuneCountInString(c.Charset)
@@ -342,6 +372,9 @@ func runStrgen(c strgenCase, r *pb.Rec) error {
 	r.ClassIf(sz&(sz-1) != 0, "charset size not a power of two")
 	r.ClassIf(sz&(sz-1) == 0, "charset size power of two")
 	r.ClassIf(len(c.Charset) != sz, "multi-byte charset")
+	r.ClassIf(len(c.Charset) >= 256 && sz < 256, "charset of fewer than 256 runes whose encoding is >= 256 bytes")
+	r.ClassIf(sz >= 256, "charset of >= 256 runes")
+	r.ClassIf(sz >= 65536, "charset of >= 65536 runes")
 	r.ClassIf(c.N == 0, "n=0")
 	return nil
 }
@@ -479,7 +512,7 @@ func init() {
 		return runParse(c, &pb.Rec{})
 	})
 	pb.Register("idgen", pb.Options{Base: 150, Required: []string{"randBit<=1", "randBit>22", "entropy source fails (fallback path)", "elapsed beyond the 41-bit time field: non-negativity only"}, Rule: "randBit -3..40, start time up to 60 years ago and at 2^41 ms -100 s (all clauses) / beyond 2^41 ms up to 285 years (non-negativity only), 1-4 ids with clock-bracketed >=1ms gaps; non-trivial = non-default randBit and non-zero elapsed time"}, genIdgen, runIdgen)
-	pb.Register("strgen", pb.Options{Twins: 3, Base: 8000, Required: []string{"charset size not a power of two", "multi-byte charset", "n=0"}, Rule: "duplicate-free charsets of sizes around powers of two (1..70 runes, ASCII or mixed width), n 0..200, PRNG source optionally preceded by adversarial words; non-trivial = n>0 and charset size not a power of two"}, genStrgen, runStrgen)
+	pb.Register("strgen", pb.Options{Twins: 3, Base: 8000, Required: []string{"charset size not a power of two", "multi-byte charset", "n=0", "charset of fewer than 256 runes whose encoding is >= 256 bytes", "charset of >= 256 runes", "charset of >= 65536 runes"}, Rule: "duplicate-free charsets of sizes around powers of two (1..70 runes, and 85..70000 runes in a quarter of the cases; ASCII, two-, three-, four-byte members or mixed width), n 0..200 and 255..5000, PRNG source optionally preceded by adversarial words; non-trivial = n>0 and charset size not a power of two"}, genStrgen, runStrgen)
 	pb.Register("package_defaults", pb.Options{Base: 3000, Required: []string{"default charset replaced"}, Rule: "randz.String(n) with the default and replaced default charsets (SetStrGeneratorCharSet), randz.Id() bracketed by clock reads against the default start time, Base32 round trip of generated ids; non-trivial = n > 0"}, genDef, runDef)
 	pb.Register("countgen", pb.Options{Twins: 3, Base: 8000, Required: []string{"elapsed on a rule boundary"}, Rule: "1-5 rules with positive parameters, elapsed times on every rule boundary ±2 and drawn in between; non-trivial = >= 2 rules and a boundary probed"}, genCount, runCount)
 }
